@@ -1,6 +1,6 @@
 (* C01 — Device resolution follows Spec-directory precedence. *)
 From Coq Require Import String Ascii List Bool Arith.
-From CDI Require Import Base SpecModel Parser Paths Cache CacheProofs.
+From CDI Require Import Base SpecModel Parser Paths Cache CacheProofs SortProofs CacheListings.
 Import ListNotations.
 Open Scope string_scope.
 
@@ -45,6 +45,24 @@ Theorem C01_vendor_specs_exact : forall files v,
   vendor_specs (c_specs (refresh_files files)) v = filter (fun f => String.eqb v (vendor_of f)) (loaded files).
 Proof. intros files v. unfold refresh_files, refresh_st. cbn [c_specs]. rewrite vendor_specs_exact. reflexivity. Qed.
 Print Assumptions C01_vendor_specs_exact.
+
+(* ... and as lists: the listings ARE the canonical (sorted, duplicate-free) listings of what the loaded files define *)
+Theorem C01_list_devices_eq : forall files,
+  sorted (loaded files) -> unique_names files -> list_devices (refresh_files files) = resolvable (loaded files).
+Proof. exact list_devices_eq. Qed.
+Print Assumptions C01_list_devices_eq.
+Theorem C01_list_vendors_eq : forall files,
+  list_vendors (refresh_files files) = sort_strings (dedup_s (map vendor_of (loaded files))).
+Proof. exact list_vendors_eq. Qed.
+Print Assumptions C01_list_vendors_eq.
+Theorem C01_list_classes_eq : forall files,
+  list_classes (refresh_files files) = sort_strings (dedup_s (map class_of (loaded files))).
+Proof. exact list_classes_eq. Qed.
+Print Assumptions C01_list_classes_eq.
+Theorem C01_canonical_listing : forall l1 l2,
+  (forall x, In x l1 <-> In x l2) -> sort_strings (dedup_s l1) = sort_strings (dedup_s l2).
+Proof. exact canonical_listing. Qed.
+Print Assumptions C01_canonical_listing.
 
 (* everything that is not a .json/.yaml file directly inside a configured directory is ignored *)
 Theorem C01_scan_ignores_entry : forall prio dpath l x,
